@@ -2,6 +2,25 @@ HOOK_COMMITS = ["d197d80"]
 NOTES = "All checks are generated-input search (proptest choice sequences, exhaustive small-domain enumeration) against explicit oracles; see DESIGN.md. Exit 2 = inconclusive (build failure / watchdog), never a violation."
 NOT_CLAIMED = {}
 CLAIMED = {
+ "C06": {
+  "technique": "property-based round trips (independent printer -> parser -> AST JSON / boundary probes), exhaustive per-byte and per-prefix tables, reference decoders for hostile literal texts",
+  "text": "Exploration: every literal kind is rendered from a value in every documented form, embedded in every literal position followed by each kind of next token, and read back from the AST (CIDR / ranges also probed by execution at their boundaries); all 256 bytes x 6 escape forms and every CIDR prefix length are enumerated; curated malformed classes must be rejected in every position; random hostile quoted / hex-pair texts are judged by reference decoders of the documented grammar (accepted exactly when well-formed, with the same value).",
+  "note": "Forms whose meaning the documentation leaves open are not generated (listed in the evidence assumptions).",
+  "ref": "DESIGN.md section 3, C06",
+ },
+ "C07": {
+  "technique": "metamorphic property-based testing: alias/whitespace re-renderings, redundant parentheses, single structural mutations; canonical JSON from the model tree",
+  "text": "Exploration: each generated well-typed filter is printed twice with independent alias and whitespace choices: ASTs equal, JSON byte-identical and equal to the canonical document computed from the model, C-API hash and std Hash equal, serialisation deterministic; redundant parentheses leave JSON/hash unchanged; one structural mutation must change both JSON and AST.",
+  "note": "Hash inequality is not asserted; literal forms (quoted vs raw) are part of the structure and are kept identical between the two renderings.",
+  "ref": "DESIGN.md section 3, C07",
+ },
+ "C12": {
+  "technique": "property-based testing: uses/uses_list for every scheme field against identifier sets computed from the model tree",
+  "text": "Exploration: for generated filters and value expressions (fields in every position class, nested calls, quantifier and logical arguments, in-$list left-hand sides) uses() and uses_list() are queried for every field of the scheme and for unknown names (function names, prefixes, extensions, case variants) and compared with the identifier sets of the source.",
+  "note": "Trusts the model printer (the text contains exactly the model tree's identifiers).",
+  "ref": "DESIGN.md section 3, C12",
+ },
+
  "C05": {
   "technique": "fuzzing: proptest string/token/mutation generators + stress inputs in child processes + libFuzzer (thorough), oracle inside the target",
   "text": "Exploration: random Unicode strings, token soups over the language alphabet, valid generated filters with 1-4 character/token edits, and 1e5-long chains / 1e5-deep nestings (child process, 8 MiB stack) are fed to Scheme::parse and Scheme::parse_value; every outcome must be an AST (serialisable) or an error whose line/column/caret range lie inside the input line; panics, aborts and stack overflows are violations. The thorough tier adds 8 coverage-guided libFuzzer jobs with the same oracle inside the target.",
